@@ -118,8 +118,81 @@ def self_opposite_pass(ctx):
                 break
 
 
+def late_opposite_pass(ctx):
+    """a metamodel built step by step: the two references exist, instances exist and have been read (or written) through
+    them, and only then are they declared each other's opposites (or re-declared: the opposite given up, another one
+    taken).  From that moment every mutation keeps the pair symmetric — on the old instances as on new ones"""
+    from pyecore import ecore as E
+    n = 40 if ctx.quick() else 600
+    for h in range(n):
+        rng = common.sub_rng(ctx.seed, 'C01', 'late-opposite', h)
+        mf, mg = rng.random() < .5, rng.random() < .5
+        A, B = E.EClass('A'), E.EClass('B')
+        f = E.EReference('f', B, upper=-1 if mf else 1)
+        g = E.EReference('g', A, upper=-1 if mg else 1)
+        g2 = E.EReference('g2', A, upper=-1 if mg else 1)
+        A.eStructuralFeatures.append(f); B.eStructuralFeatures.extend([g, g2])
+        olds = ([A(), A()], [B(), B()])
+        touch = rng.choice(['read', 'read', 'none', 'read-some'])
+        for k, o in enumerate(olds[0] + olds[1]):
+            if touch == 'read' or (touch == 'read-some' and k % 2 == 0):
+                for ft in o.eClass.eAllReferences():
+                    _ = o.eGet(ft)
+        log = [f'instances {touch} before the declaration']
+        if rng.random() < .3:
+            f.eOpposite = g2
+            f.eOpposite = None if rng.random() < .5 else g
+            log.append('f paired with g2 first, then released / re-paired')
+        f.eOpposite = g
+        log.append('f.eOpposite = g')
+        objsA = olds[0] + [A()]
+        objsB = olds[1] + [B()]
+
+        def vals(o, ft):
+            v = o.eGet(ft)
+            return list(v) if ft.many else ([v] if v is not None else [])
+        for step in range(8):
+            side = rng.random() < .5
+            x = rng.choice(objsA if side else objsB)
+            y = rng.choice(objsB if side else objsA)
+            ft = f if side else g
+            try:
+                if ft.many:
+                    c = x.eGet(ft)
+                    k = rng.random()
+                    if k < .5 or not len(c):
+                        rng.choice([c.append, lambda v: c.insert(0, v), lambda v: c.extend([v])])(y)
+                        log.append(f'{"A" if side else "B"}{(objsA if side else objsB).index(x)}.{ft.name} += {"B" if side else "A"}{(objsB if side else objsA).index(y)}')
+                    elif k < .8:
+                        c.remove(c[0]); log.append('remove first')
+                    else:
+                        c.clear(); log.append('clear')
+                else:
+                    x.eSet(ft, y if rng.random() < .8 else None)
+                    log.append(f'{"A" if side else "B"}{(objsA if side else objsB).index(x)}.{ft.name} = …')
+            except Exception as e:
+                log.append(f'raised {type(e).__name__}')
+            ctx.evaluations += 1
+            ctx.nontriv(('late-opposite', h, step))
+            bad = None
+            for a in objsA:
+                for b in vals(a, f):
+                    if not any(z is a for z in vals(b, g)):
+                        bad = f'A{objsA.index(a)}.f holds B{objsB.index(b)}, whose g does not hold it back'
+            for b in objsB:
+                for a in vals(b, g):
+                    if not any(z is b for z in vals(a, f)):
+                        bad = f'B{objsB.index(b)}.g holds A{objsA.index(a)}, whose f does not hold it back'
+            if bad:
+                ctx.violate({'clause': 'sym-late-opposite', 'shape': [mf, mg]},
+                            f'opposites declared after instances existed ({"many" if mf else "single"} / {"many" if mg else "single"}), after {log}: {bad}',
+                            {'late_opposite': h, 'calls': log})
+                return
+
+
 def run(ctx):
     storecheck.run(ctx, CHECKS)
+    late_opposite_pass(ctx)
     load_pass(ctx)
     self_opposite_pass(ctx)
     crossworld.symmetry_pass(ctx)
